@@ -58,6 +58,7 @@ for _t, _names in {
     "Edges": ["edges"],
     "FormatAlias": ["format_alias"],
     "Placeholders": ["placeholders"],
+    "TermWrites": ["term_writes_agree"],
     "SetWrites": ["setop_writes_agree"],
     "DDLWrites": ["ddl_writes_agree", "ddl_reads_agree", "ddl_methods_covered"],
     "BuilderWrites": ["writes_agree", "reads_agree", "methods_covered", "setops_write_nothing"],
